@@ -136,13 +136,16 @@ ViewOk(ev) ==
            t1 == DyPow2(7 - p)
            zs == IF ev.hand = "rh" THEN DyInt(-1) ELSE Dy1
            id == MatVec3(c, d)
-           iu == MatVec3(c, u) IN
+           iu == MatVec3(c, u)
+           Small(x) == DyLe(DyMul(DySq(x), Lagrange(d, u)), DyPow2(2 * (9 - p))) IN
        /\ DyNear(VSq(d), Dy1, t1) /\ DyNear(VSq(u), Dy1, t1)                                       \* the recorded dir and up are unit vectors
        /\ DyLe(DyPow2(-20), Lagrange(d, u))                                                         \* ... and not parallel: |dir x up| >= 2^-10
-       /\ \A i \in 1..3 : DyNear(VSq(c[i]), Dy1, t1)                                                \* orthonormal columns
-       /\ \A i, j \in 1..3 : i < j => DyNear(VDot(c[i], c[j]), Dy0, t1)
+       \* the side axis is normalize(dir x up): its direction carries an error of about u / |dir x up|, and so does everything that is
+       \* orthogonal by construction; |x| <= 2^9 u / |dir x up| is written x^2 |dir x up|^2 <= (2^9 u)^2 (no square root, no division)
+       /\ \A i \in 1..3 : DyNear(VSq(c[i]), Dy1, DyScale(t1, 2))                                   \* unit columns
+       /\ \A i, j \in 1..3 : i < j => Small(VDot(c[i], c[j]))                                      \* mutually orthogonal
        /\ DyLt(DyPow2(-1), VDot(Cross3(c[1], c[2]), c[3]))                                          \* determinant +1, not -1
-       /\ DyNear(id[1], Dy0, t1) /\ DyNear(id[2], Dy0, t1) /\ DyNear(id[3], zs, t1)                 \* the view direction goes to -Z / +Z
+       /\ Small(id[1]) /\ Small(id[2]) /\ Small(DySub(id[3], zs))                                   \* the view direction goes to -Z / +Z
        /\ DyIsPos(iu[2])                                                                             \* up lands in the +Y half ...
        /\ DyLe(DyMul(DySq(iu[1]), Lagrange(d, u)), DyPow2(2 * (9 - p)))                             \* ... of the YZ plane: |x| <= 2^9 u / |dir x up|
        /\ ("t" \in DOMAIN ev) =>                                                                    \* matrix / affine forms: the eye goes to the origin
